@@ -340,3 +340,26 @@ func VH_C02_nested_optional(kind, shape int) {
 	}
 	vreach("end")
 }
+
+// VH_C02_propvar (C02): a pattern with a property variable ({"?p": value}) against a fact
+// whose key is arbitrary (the solver picks it: ordinary, ending in '!', "rule", ...): the
+// search finds the fact iff the matcher matches it, on both states.
+func VH_C02_propvar(kind int) {
+	env := vhNewEnv(kind)
+	k := vsymStrN("key", 5)
+	vassume(k != "" && !IsVariable(k) && k != "id" && k != "expires" && k != "ttl" && k != "deleteWith" && k != "_id")
+	v := vsymStrN("val", 2)
+	vassume(v != "" && !IsVariable(v))
+	fact := map[string]interface{}{k: v, "n": "1"}
+	_, err := env.state.Add(env.ctx, "f", Map(fact))
+	vassume(err == nil)
+	pattern := map[string]interface{}{"?p": v}
+	bss, merr := Matches(env.ctx, pattern, fact)
+	vassume(merr == nil)
+	srs, serr := env.state.Search(env.ctx, Map(pattern))
+	vassert(serr == nil && srs != nil, "search-no-error")
+	if serr == nil && srs != nil {
+		vassert((len(srs.Found) == 1) == (len(bss) > 0), "search-result-is-stored-matching-fact")
+	}
+	vreach("end")
+}
